@@ -145,9 +145,11 @@ class Env:
                 orig = IX.reduce_equation
                 c = self.c
 
-                def _no_reduce(compiled_equation, args):
+                def _no_reduce(compiled_equation, tensors):
+                    # the path taken when some operand requires grad: no reduction at all
                     c.inc('path-skip.reduce_equation')
-                    return (compiled_equation, args, None)
+                    output_shape = compiled_equation.get_sizes(tensors, compiled_equation.output_variables)
+                    return (tensors, compiled_equation, [], output_shape)
                 self._reduce_orig = orig
                 self._patch(IX, 'reduce_equation', _no_reduce)
         return self
